@@ -92,6 +92,9 @@ def history_queries(backend: str) -> List[str]:
             f"Select({{ds}}, lambda e: e.{coll}('A').Count())",
             f"Select({{ds}}, lambda e: e.{coll}('A').Where(lambda j: j.pt() > 1.0).Select(lambda j: j.eta()).First())",
             f"Select({{ds}}, lambda e: e.MyJets('Z').Count())",
+            # constants that compare equal to the ones the constant probes use (0.0 vs -0.0, 1 vs 1.0 vs True ...)
+            f"Select(SelectMany({{ds}}, lambda e: e.{coll}('A')), lambda j: (j.pt() * 0.0, j.pt() + 1, 2.0, False))",
+            f"Select(SelectMany({{ds}}, lambda e: e.{coll}('A')), lambda j: (j.pt() * NEGZERO, j.pt() + 1.0, 2, True, 0))",
             f"Select({{ds}}, lambda e: e.{coll}('A').Select(lambda j: MyFunc(j.pt())))",
             f"Select({{ds}}, lambda e: e.{coll}('A').Where(lambda j: j.color() == xAOD.Jet.Color.Red).Count())"]
 
@@ -113,6 +116,8 @@ def probes(backend: str) -> List[Tuple[str, str]]:
          ("deref_method", f"Select(ds, lambda e: e.{coll}('A').Select(lambda j: j.other().pt()))"),
          ("default_typed_method", ("Select(ds, lambda e: e.TruthParticles('TP').Select(lambda p: p.prodVtx().x()))" if backend == "atlas" else f"Select(ds, lambda e: e.{coll}('A').Select(lambda j: j.isPFMuon()))")),
          ("undeclared_on_default_type", ("Select(ds, lambda e: e.TruthParticles('TP').Select(lambda p: p.pdgId()))" if backend == "atlas" else f"Select(ds, lambda e: e.{coll}('A').Select(lambda j: j.charge2()))")),
+         ("constants_a", f"Select(SelectMany(ds, lambda e: e.{coll}('A')), lambda j: (j.pt() * NEGZERO, j.pt() + 1.0, 2, True, 0))"),
+         ("constants_b", f"Select(SelectMany(ds, lambda e: e.{coll}('A')), lambda j: (j.pt() * 0.0, j.pt() + 1, 2.0, False, 1, 0.0))"),
          ("docker_md_unknown", f"Select(MetaData(ds, {{'metadata_type': 'docker', 'image': 'x:y'}}), lambda e: e.{coll}('A').Count())"),
          ("job_script_self", "Select(MetaData(ds, {'metadata_type': 'add_job_script', 'name': 'js2', 'script': [\"print('js2')\"], 'depends_on': ['js1']}), lambda e: e.%s('A').Count())" % coll)]
     return P
